@@ -10,10 +10,16 @@
     the test also asks for a `=`);
   * numbers that do not parse are dropped silently; `enum` accumulates, every other keyword is overwritten.
 
+  The parser is a FAMILY over `TagFacts` (regenerated from the source, `Mcp.Gen.SchemaTagFacts`): whether the value of
+  `minimum`, `maximum` and of a number-typed `default` goes through a finiteness check (`parseFiniteFloat`, since
+  068180d) or straight through `strconv.ParseFloat`, which accepts NaN / Inf / Infinity — bounds encoding/json cannot
+  print. `codeTagFacts` are the facts of today's source; the driver runs the model there.
+
   The parser has no failure path: whatever the tag says, the field keeps its place in `properties` (the generators of
   `Mcp.Model.Schema` do not look at the tag except for `required`).
 -/
 import Mcp.Model.Schema
+import Mcp.Gen.SchemaTagFacts
 namespace Mcp.Schema
 open Mcp.Str
 
@@ -194,19 +200,45 @@ def Directive.floatArg : Directive → Option Text
   | .dflt v => some v
   | _ => none
 
-def defaultOf (k : TagKind) (kw : TagKw) (v : Text) : TagKw :=
+/-- Which number parsers of parseJSONSchemaTags reject NaN / ±Inf (`parseFiniteFloat`) instead of accepting whatever
+    `strconv.ParseFloat` accepts. -/
+structure TagFacts where
+  minFinite : Bool
+  maxFinite : Bool
+  defaultFinite : Bool
+deriving DecidableEq, Repr
+
+/-- every tag number goes through the finiteness check (the code since 068180d) -/
+def TagFacts.checked : TagFacts := ⟨true, true, true⟩
+/-- none does (the code before: plain `strconv.ParseFloat`) -/
+def TagFacts.unchecked : TagFacts := ⟨false, false, false⟩
+
+/-- the region in which no tag can put a non-finite number on a schema -/
+def TagFacts.Good (F : TagFacts) : Prop := F.minFinite = true ∧ F.maxFinite = true ∧ F.defaultFinite = true
+instance (F : TagFacts) : Decidable F.Good := by unfold TagFacts.Good; exact inferInstance
+
+/-- a keyword's parser is finite-checked iff it is `parseFiniteFloat` and that function has the checked shape;
+    `strconv.ParseFloat`, `unknown` or anything else is not -/
+def tagParserFinite (kw : Text) : Bool :=
+  Mcp.Gen.tagFiniteCheck && (Mcp.Gen.tagNumberParsers.lookup kw == some t!"parseFiniteFloat")
+
+/-- The facts of today's source. -/
+def codeTagFacts : TagFacts :=
+  ⟨tagParserFinite t!"minimum", tagParserFinite t!"maximum", tagParserFinite t!"default:number"⟩
+
+def defaultOf (F : TagFacts) (k : TagKind) (kw : TagKw) (v : Text) : TagKw :=
   match k with
   | .int => { kw with dflt := some (match parseInt64 v with | some i => .int i | none => .str v) }
   | .float =>
     match parseFloatLit v with
     | .num m e => { kw with dflt := some (.num m e) }
     | .err => { kw with dflt := some (.str v) }
-    | .nonfinite => { kw with nonfinite := true }
+    | .nonfinite => if F.defaultFinite then { kw with dflt := some (.str v) } else { kw with nonfinite := true }
     | .unmodelled => { kw with unmodelled := true }
   | .bool => { kw with dflt := some (match parseBool v with | some b => .bool b | none => .str v) }
   | _ => { kw with dflt := some (.str v) }
 
-def applyClassified (k : TagKind) (kw : TagKw) : Directive → TagKw
+def applyClassified (F : TagFacts) (k : TagKind) (kw : TagKw) : Directive → TagKw
   | .ignored => kw
   | .title v => { kw with title := v }
   | .description v => { kw with description := v }
@@ -216,29 +248,29 @@ def applyClassified (k : TagKind) (kw : TagKw) : Directive → TagKw
     match parseFloatLit v with
     | .num m e => { kw with minimum := some (m, e) }
     | .err => kw
-    | .nonfinite => { kw with nonfinite := true }
+    | .nonfinite => if F.minFinite then kw else { kw with nonfinite := true }
     | .unmodelled => { kw with unmodelled := true }
   | .maximum v =>
     match parseFloatLit v with
     | .num m e => { kw with maximum := some (m, e) }
     | .err => kw
-    | .nonfinite => { kw with nonfinite := true }
+    | .nonfinite => if F.maxFinite then kw else { kw with nonfinite := true }
     | .unmodelled => { kw with unmodelled := true }
   | .minLength v => (match parseUint64 v with | some n => { kw with minLength := n } | none => kw)
   | .maxLength v => (match parseUint64 v with | some n => { kw with maxLength := some n } | none => kw)
   | .minItems v => (match parseUint64 v with | some n => { kw with minItems := n } | none => kw)
   | .maxItems v => (match parseUint64 v with | some n => { kw with maxItems := some n } | none => kw)
   | .enum v => { kw with enums := kw.enums ++ [v] }
-  | .dflt v => defaultOf k kw v
+  | .dflt v => defaultOf F k kw v
   | .exmpl v => { kw with exmpl := some v }
   | .uniqueItems => { kw with uniqueItems := true }
 
 /-- one round of the directive loop of parseJSONSchemaTags -/
-def applyDirective (k : TagKind) (kw : TagKw) (d0 : Text) : TagKw := applyClassified k kw (classify d0)
+def applyDirective (F : TagFacts) (k : TagKind) (kw : TagKw) (d0 : Text) : TagKw := applyClassified F k kw (classify d0)
 
 /-- parseJSONSchemaTags on a fresh field schema of JSON type `k`: the keywords it sets. It cannot fail. -/
-def tagKeywords (k : TagKind) (js : Text) : TagKw :=
-  if js == [] then {} else (parseDirectives js).foldl (applyDirective k) {}
+def tagKeywords (F : TagFacts) (k : TagKind) (js : Text) : TagKw :=
+  if js == [] then {} else (parseDirectives js).foldl (applyDirective F k) {}
 
 /-- the same struct fields carrying other `jsonschema` tags (`f` sees the whole field description) -/
 def retag (f : FieldMeta → Text) : Fields → Fields
